@@ -55,8 +55,8 @@ LEVEL_TEXT = ("Exhaustive enumeration of all requested sizes 12, 24, 25..1200 "
               "size sweep; the generated parts are a search.")
 LEVEL_NOTE = ("float64: CAZAC identities judged at 1e-6 (relative to N, "
               "sqrt(N)) because the quadratic phase reaches 1e9 rad at "
-              "N~1200 (observed <= 8e-10); estimator exactness at 1e-9 of "
-              "the summed channel norms; LS at 1e-11*kappa^2")
+              "N~1200 (observed <= 8e-10); estimator exactness at 1e-10 of "
+              "the summed channel norms; LS at 1e-13*kappa^2")
 TECHNIQUE = ("property-based testing (Hypothesis) + exhaustive enumeration of "
              "the finite size domain; first-principles reference oracles "
              "(sieve, FFT identities, DFT of the generating impulse response)")
@@ -77,7 +77,7 @@ ASSUMPTIONS = [
     "CAZAC identities are checked for sampled roots per size (all roots only "
     "for base lengths < 64 in the thorough tier)",
     "LS exactness is numerically limited by the normal equations: tolerance "
-    "1e-11 * kappa(s)^2 * ||H||_F, kappa <= 1e3 (quick) / 1e4 (thorough)",
+    "1e-13 * kappa(s)^2 * ||H||_F, kappa <= 1e3 (quick) / 1e4 (thorough)",
 ]
 
 QUICK_BUDGET_S = 90
@@ -420,7 +420,8 @@ def _chan(draw, lmax, tight_at=None):
                        st.integers(1, lmax)))
     return dict(L=L, seed=draw(seeds),
                 profile=draw(st.sampled_from(_PROFILES)),
-                scale_exp=draw(st.sampled_from([0, 0, 0, -3, -1, 1, 3])))
+                scale_exp=draw(st.sampled_from([0, 0, 0, -3, -1, 1, 3, -6,
+                                                -9, -12])))
 
 
 @st.composite
@@ -583,7 +584,7 @@ def _check_est(case, ctx):
     if out.shape != want.shape:
         raise Violation("est_shape", "estimate shape %r, expected %r" %
                         (out.shape, want.shape), tags)
-    ctx.close("est_exact", float(np.linalg.norm(out - want)), 1e-9 * scale,
+    ctx.close("est_exact", float(np.linalg.norm(out - want)), 1e-10 * scale,
               "%s N=%d root=%d shift=%d mult=%r nr=%d K=%d L=%d others=%r "
               "(scale %.3e)" % (kind, N, root, case["n_cs"], mult, nr, K,
                                 case["chan"]["L"],
@@ -652,7 +653,7 @@ def _check_occ(case, ctx):
         raise Violation("est_shape", "OCC estimate shape %r, expected %r" %
                         (out.shape, want.shape), tags)
     name = "est_occ_same_shift" if same else "est_occ_exact"
-    ctx.close(name, float(np.linalg.norm(out - want)), 1e-9 * scale,
+    ctx.close(name, float(np.linalg.norm(out - want)), 1e-10 * scale,
               "N=%d root=%d shift=%d cover=%r nr=%d K=%d L=%d extra_dim=%r "
               "others=%r (scale %.3e)" %
               (N, root, case["n_cs"], COVERS[case["cover"]], nr, K,
@@ -683,6 +684,8 @@ def _ls_cases(tier):
         conv=st.sampled_from(["2d", "3d_shared", "3d_per"]),
         nreal=st.integers(1, 3),
         real=st.sampled_from([False, False, False, True]),
+        # real pilots (Hadamard / BPSK) with a complex channel
+        real_pilots=st.sampled_from([False, False, True]),
     ))
 
 
@@ -725,6 +728,9 @@ def _check_ls(case, ctx):
         ctx.label("ls:zero_pilot_instants")
     ctx.nontrivial(Nt >= 2 or nz > 0)
     rs = np.random.RandomState(case["seed"])
+    real_p = real or bool(case.get("real_pilots"))
+    if real_p and not real:
+        ctx.label("ls:real_pilots_complex_channel")
 
     def chan():
         if real:
@@ -732,15 +738,15 @@ def _check_ls(case, ctx):
         return (rs.randn(Nr, Nt) + 1j * rs.randn(Nr, Nt)) / math.sqrt(2.0)
 
     if conv == "2d":
-        s = _pilot_matrix(rs, Nt, Np, sv, real, nz)
+        s = _pilot_matrix(rs, Nt, Np, sv, real_p, nz)
         H = chan()
         Y = H @ s
     elif conv == "3d_shared":
-        s = _pilot_matrix(rs, Nt, Np, sv, real, nz)
+        s = _pilot_matrix(rs, Nt, Np, sv, real_p, nz)
         H = np.array([chan() for _ in range(nreal)])
         Y = H @ s
     else:
-        s = np.array([_pilot_matrix(rs, Nt, Np, sv, real, nz)
+        s = np.array([_pilot_matrix(rs, Nt, Np, sv, real_p, nz)
                       for _ in range(nreal)])
         H = np.array([chan() for _ in range(nreal)])
         Y = H @ s
@@ -750,7 +756,7 @@ def _check_ls(case, ctx):
         raise Violation("ls_shape", "estimate shape %r, expected %r" %
                         (out.shape, H.shape), tags)
     ctx.close("ls_exact", float(np.linalg.norm(out - H)),
-              1e-11 * kappa ** 2 * float(np.linalg.norm(H)),
+              1e-13 * kappa ** 2 * float(np.linalg.norm(H)),
               "Nt=%d Np=%d Nr=%d kappa=%.3g conv=%s real=%r" %
               (Nt, Np, Nr, kappa, conv, real), tags)
 
